@@ -27,6 +27,8 @@ pub fn sem_jobs(thorough: bool, finish: bool) -> Vec<Job> {
                 if fi == 0 {
                     v.push(job(Cfg::new(fl, &[("fair", fair), ("permits", 1), ("k", 4), ("sizes", bits(&[1, 2])), ("cap", 3), ("rels", 1)]), finish, true));
                     v.push(job(Cfg::new(fl, &[("fair", fair), ("permits", 2), ("k", 3), ("sizes", bits(&[1, 2, 3])), ("cap", 5), ("rels", 2)]), finish, true));
+                    v.push(job(Cfg::new(fl, &[("fair", fair), ("permits", 0), ("k", 4), ("sizes", bits(&[1, 2, 3])), ("cap", 5), ("rels", 1)]), finish, true));
+                    v.push(job(Cfg::new(fl, &[("fair", fair), ("permits", 0), ("k", 4), ("sizes", bits(&[0, 1, 2])), ("cap", 4), ("rels", 1)]), finish, true));
                 }
             } else if fi == 0 {
                 v.push(job(Cfg::new(fl, &[("fair", fair), ("permits", 0), ("k", 3), ("sizes", bits(&[0, 1, 2])), ("cap", 3), ("rels", 1)]), finish, false));
@@ -48,7 +50,7 @@ pub fn mutex_jobs(thorough: bool, finish: bool) -> Vec<Job> {
     }
     if thorough {
         v.push(job(Cfg::new("mutex.local", &[("fair", 1), ("k", 7)]), finish, true));
-        v.push(job(Cfg::new("mutex.local", &[("fair", 0), ("k", 6)]), finish, true));
+        v.push(job(Cfg::new("mutex.local", &[("fair", 0), ("k", 7)]), finish, true));
         v.push(job(Cfg::new("mutex.local", &[("fair", 0), ("k", 3), ("symmetry", 0)]), finish, true));
         v.push(job(Cfg::new("mutex.local", &[("fair", 1), ("k", 3), ("symmetry", 0)]), finish, true));
     }
@@ -85,6 +87,8 @@ pub fn state_jobs(thorough: bool) -> Vec<Job> {
     }
     if !thorough {
         v.push(job(Cfg::new("state.local", &[("k", 3), ("sends", 2), ("handles", 2)]), false, false));
+    } else {
+        v.push(job(Cfg::new("state.local", &[("k", 4), ("sends", 3), ("handles", 1)]), false, true));
     }
     v
 }
@@ -96,6 +100,9 @@ pub fn timer_jobs(thorough: bool) -> Vec<Job> {
     v.push(job(Cfg::new("timer.local", &[("k", k), ("clock0", 0), ("deadlines", 0b1110), ("delays", 0b11_0000_0011), ("span", 4)]), false, thorough));
     v.push(job(Cfg::new("timer.std", &[("k", k), ("clock0", 0), ("deadlines", 0b1110), ("delays", 0b10_0000_0010), ("span", 3)]), false, thorough));
     v.push(job(Cfg::new("timer.local", &[("k", 3), ("clock0", 5), ("deadlines", 0b0110), ("delays", 0b10_0000_0011), ("span", 3)]), false, thorough));
+    if thorough {
+        v.push(job(Cfg::new("timer.local", &[("k", 5), ("clock0", 0), ("deadlines", 0b0110), ("delays", 0b10), ("span", 3)]), false, true));
+    }
     v
 }
 
@@ -123,7 +130,11 @@ pub fn mpmc_jobs(thorough: bool, finish: bool) -> Vec<Job> {
         v.push(job(Cfg::new("mpmc.shGrow", &[("cap", cap), ("ks", 1), ("kr", 1), ("values", 2), ("stream", 1), ("handles", 2)]), finish, thorough));
     }
     v.push(job(Cfg::new("mpmc.shFix", &[("cap", 1), ("ks", 2), ("kr", 1), ("values", 3), ("stream", 0), ("handles", 2)]), finish, thorough));
+    v.push(job(Cfg::new("mpmc.arrL3", &[("cap", 3), ("ks", 2), ("kr", 1), ("values", 4), ("stream", 0)]), finish, thorough));
     if thorough {
+        v.push(job(Cfg::new("mpmc.arrL1", &[("cap", 1), ("ks", 3), ("kr", 3), ("values", 4), ("stream", 0)]), finish, true));
+        v.push(job(Cfg::new("mpmc.arrL0", &[("cap", 0), ("ks", 3), ("kr", 3), ("values", 4), ("stream", 0)]), finish, true));
+        v.push(job(Cfg::new("mpmc.arrL3", &[("cap", 3), ("ks", 2), ("kr", 2), ("values", 5), ("stream", 0)]), finish, true));
         v.push(job(Cfg::new("mpmc.shGrow", &[("cap", 1), ("ks", 2), ("kr", 2), ("values", 3), ("stream", 0), ("handles", 3)]), finish, true));
         v.push(job(Cfg::new("mpmc.arrL1", &[("cap", 1), ("ks", 2), ("kr", 2), ("values", 3), ("stream", 0), ("symmetry", 0)]), finish, true));
     }
